@@ -233,6 +233,7 @@ type disObs struct {
 	hasregs bool
 	a, x, y disShown
 	flags   [8]bool
+	pure    bool // every integer / bool CPU field unchanged by the call
 	raw     string
 }
 
@@ -511,8 +512,8 @@ func (o *disObs) text() string {
 	if name == "" {
 		name = "-"
 	}
-	return fmt.Sprintf("%d %d %s %s %d %s %d %d %d %d %d %d %d %d %s", o.pbr, o.pc, b, name, o.shape, g, bi(o.back), bi(o.hasregs),
-		bi(o.a.wide), o.a.v, bi(o.x.wide), o.x.v, bi(o.y.wide), o.y.v, fl)
+	return fmt.Sprintf("%d %d %s %s %d %s %d %d %d %d %d %d %d %d %s %d", o.pbr, o.pc, b, name, o.shape, g, bi(o.back), bi(o.hasregs),
+		bi(o.a.wide), o.a.v, bi(o.x.wide), o.x.v, bi(o.y.wide), o.y.v, fl, bi(o.pure))
 }
 
 // ---------------------------------------------------------------- running the real disassemblers
@@ -573,7 +574,14 @@ func disBankMapped(k byte) bool { return k < 0x40 || k == 0x7E || k == 0x7F || (
 
 // returns the raw text of the line; kind: 0 System.RunUntil with Logger, 3 cpu65c816.DisassembleTo, 1 cpualt.DisassembleTo /
 // DisassembleCurrentPC, 2 cpualt.Disassemble
-func (r *disRig) run(kind int, c *disCase) (text string, panicked bool, applicable bool) {
+func (r *disRig) run(kind int, c *disCase) (text string, panicked bool, applicable bool, changed string) {
+	var before func() string
+	defer func() {
+		if before != nil && !panicked {
+			// set by the cases below once the CPU is loaded: compare every field with its value before the call
+			changed = before()
+		}
+	}()
 	defer func() {
 		if e := recover(); e != nil {
 			panicked = true
@@ -583,10 +591,12 @@ func (r *disRig) run(kind int, c *disCase) (text string, panicked bool, applicab
 	switch kind {
 	case 0, 3:
 		if !disBankMapped(c.st.RK) || (kind == 0 && c.mypc != c.st.PC) {
-			return "", false, false
+			return "", false, false, ""
 		}
 		s := r.sys
 		disSet65(&s.CPU, &c.st)
+		snap := disSnapshot(&s.CPU)
+		before = func() string { return disDiff(snap, disSnapshot(&s.CPU)) }
 		for i := 0; i < 4; i++ {
 			s.Bus.EaWrite(c.addr(i), c.mem[i])
 		}
@@ -600,18 +610,20 @@ func (r *disRig) run(kind int, c *disCase) (text string, panicked bool, applicab
 			var buf bytes.Buffer
 			s.Logger = &buf
 			s.RunUntil(s.GetPC(), 1) // logs the line, then stops at the target check without stepping
-			return buf.String(), false, true
+			return buf.String(), false, true, ""
 		}
-		return string(s.CPU.DisassembleTo(c.mypc, nil)), false, true
+		return string(s.CPU.DisassembleTo(c.mypc, nil)), false, true, ""
 	case 1, 2:
 		a := r.alt
 		disSetAlt(a, &c.st)
+		snap := disSnapshotAlt(a)
+		before = func() string { return disDiff(snap, disSnapshotAlt(a)) }
 		r.altMem.m = map[uint32]byte{}
 		for i := 0; i < 4; i++ {
 			r.altMem.m[c.addr(i)] = c.mem[i]
 		}
 		if kind == 2 {
-			return a.Disassemble(c.mypc), false, true
+			return a.Disassemble(c.mypc), false, true, ""
 		}
 		var buf bytes.Buffer
 		if c.mypc == c.st.PC {
@@ -619,9 +631,9 @@ func (r *disRig) run(kind int, c *disCase) (text string, panicked bool, applicab
 		} else {
 			a.DisassembleTo(c.mypc, &buf)
 		}
-		return buf.String(), false, true
+		return buf.String(), false, true, ""
 	}
-	return "", false, false
+	return "", false, false, ""
 }
 
 // ---------------------------------------------------------------- the Go falsifier of truthfulness (no model)
@@ -834,6 +846,7 @@ func disCasesCmd(args []string) int {
 	corpus := fs.String("corpus", "", "directory of corpus case files (run first)")
 	outPath := fs.String("out", "", "cases file for the Coq tie")
 	progs := fs.Int("progs", 40, "traced programs (lines taken from real runs)")
+	corpusOnly := fs.Bool("corpus-only", false, "run the corpus cases only (replay)")
 	fs.Parse(args)
 	rng := &cpuRng{s: *seed*0x9E3779B97F4A7C15 + 0x7654321}
 	rig := newDisRig()
@@ -864,7 +877,7 @@ func disCasesCmd(args []string) int {
 			if kind == 3 && !(c.mypc != c.st.PC || c.id%4 == 0) {
 				continue
 			}
-			text, panicked, ok := rig.run(kind, &c)
+			text, panicked, ok, changed := rig.run(kind, &c)
 			if !ok {
 				continue
 			}
@@ -881,6 +894,7 @@ func disCasesCmd(args []string) int {
 					obsText = "UNPARSED " + strconv.Quote(text) + " " + strconv.Quote(perr.Error())
 					stats["unparsed"]++
 				} else {
+					o.pure = changed == ""
 					obsText = o.text()
 				}
 			}
@@ -909,6 +923,9 @@ func disCasesCmd(args []string) int {
 				}
 			} else {
 				fails = disTruth(&c, o)
+			}
+			if changed != "" {
+				fails = append(fails, [2]string{"perturb.call", "the call changed CPU fields: " + changed})
 			}
 			for _, f := range fails {
 				key := f[0]
@@ -945,7 +962,11 @@ func disCasesCmd(args []string) int {
 			}
 		}
 	}
-	disGen(rng, *tier == "thorough", runCase)
+	if *corpusOnly {
+		*progs = 0
+	} else {
+		disGen(rng, *tier == "thorough", runCase)
+	}
 	// lines taken from real runs: single-stepped through System.RunUntil(target, 1) so that the state
 	// before each line is known
 	np := *progs
@@ -987,6 +1008,7 @@ func disCasesCmd(args []string) int {
 					obsText = "UNPARSED " + strconv.Quote(text) + " " + strconv.Quote(perr.Error())
 					stats["unparsed"]++
 				} else {
+					o.pure = true // the state moves on by the Step that follows the line; covered by disrun
 					obsText = o.text()
 					for _, f := range disTruth(&c, o) {
 						failSeen[f[0]]++
@@ -1137,6 +1159,42 @@ func disSnapshot(c *cpu65c816.CPU) string {
 	var out []string
 	disCPUFields(reflect.ValueOf(c).Elem(), "", &out)
 	return strings.Join(out, " ")
+}
+
+// cpualt: the Bus is embedded by value; its open-bus byte M is a latch of the last bus access and is excluded
+func disSnapshotAlt(c *cpualt.CPU) string {
+	var out []string
+	v := reflect.ValueOf(c).Elem()
+	t := v.Type()
+	for i := 0; i < t.NumField(); i++ {
+		if t.Field(i).Name == "Bus" {
+			continue
+		}
+		f := v.Field(i)
+		switch f.Kind() {
+		case reflect.Struct:
+			disCPUFields(f, t.Field(i).Name+".", &out)
+		case reflect.Uint8, reflect.Uint16, reflect.Uint32, reflect.Uint64:
+			out = append(out, fmt.Sprintf("%s=%d", t.Field(i).Name, f.Uint()))
+		case reflect.Bool:
+			out = append(out, fmt.Sprintf("%s=%v", t.Field(i).Name, f.Bool()))
+		}
+	}
+	return strings.Join(out, " ")
+}
+
+func disDiff(a, b string) string {
+	if a == b {
+		return ""
+	}
+	fa, fb := strings.Fields(a), strings.Fields(b)
+	var d []string
+	for i := range fa {
+		if i < len(fb) && fa[i] != fb[i] {
+			d = append(d, fa[i]+" -> "+fb[i])
+		}
+	}
+	return strings.Join(d, ", ")
 }
 
 type disCommitLogger struct {
@@ -1329,9 +1387,13 @@ func disReplayCmd(args []string) int {
 	rig := newDisRig()
 	rc := 0
 	for _, kind := range []int{0, 1, 2, 3} {
-		text, panicked, ok := rig.run(kind, &c)
+		text, panicked, ok, changed := rig.run(kind, &c)
 		if !ok {
 			continue
+		}
+		if changed != "" {
+			fmt.Printf("kind=%d FAIL C14 key=perturb.call the call changed CPU fields: %s\n", kind, changed)
+			rc = 1
 		}
 		if panicked {
 			fmt.Printf("kind=%d PANIC %s\n", kind, text)
